@@ -143,7 +143,12 @@ unsafe fn level_swap<M: Manager>(
                         children
                     }
                     node => {
-                        debug_assert!(node.level() > lower_no);
+                        // Level numbers inside nodes are the numbers from
+                        // before the reordering (`*_pre`), so they cannot be
+                        // compared with `lower_no`.
+                        debug_assert!(
+                            node.level() != upper_no_pre && node.level() != lower_no_pre
+                        );
                         // The child is below the lower level, so we always have
                         // this child
                         (0..M::InnerNode::ARITY).map(|_| c.borrowed()).collect()
